@@ -82,10 +82,18 @@ _COMBOS = _policy_combos()
 
 def _admissible(d, text, start, cfg, r, open_aspects, deviations=()):
     """a policy under which the documented outcome equals the real one (None if there is none)"""
-    if not open_aspects and not deviations:
+    if deviations:
+        try:
+            o, info = S.evaluate_info(d, text, start, deviations=deviations, **cfg)
+        except S.Unsupported:
+            return None
+        if isinstance(o, S.Unspecified) or agrees(o, r):
+            return S.DEFAULT_POLICY
+        open_aspects = info['open']
+    if not open_aspects:
         return None
     for pol in _COMBOS:
-        if not deviations and pol == S.DEFAULT_POLICY:
+        if pol == S.DEFAULT_POLICY:
             continue
         try:
             o = S.evaluate(d, text, start, policy=pol, deviations=deviations, **cfg)
@@ -96,23 +104,27 @@ def _admissible(d, text, start, cfg, r, open_aspects, deviations=()):
     return None
 
 
-def classify(d, text, start, cfg, r):
+_DEV_SETS = [c for k in (1, 2, 3) for c in itertools.combinations(S.DEVIATIONS, k)]
+
+
+def classify(d, text, start, cfg, r, hint=None):
     """name the class of a failure (see module doc)"""
     if r[0] == 'exc':
-        return 'raises-' + r[1]
-    for k in (1, 2, 3):
-        for devs in itertools.combinations(S.DEVIATIONS, k):
-            if _admissible(d, text, start, cfg, r, True, deviations=devs) is not None:
-                return '+'.join(devs)
+        return 'raises-' + r[1], None
+    if hint and _admissible(d, text, start, cfg, r, True, deviations=hint) is not None:
+        return '+'.join(hint), hint
+    for devs in _DEV_SETS:
+        if devs != hint and _admissible(d, text, start, cfg, r, True, deviations=devs) is not None:
+            return '+'.join(devs), devs
     try:
         o = S.evaluate(d, text, start, **cfg)
     except S.Unsupported:
-        return 'unexplained'
+        return 'unexplained', None
     if o.ok and r[0] == 'fail':
-        return 'unexplained-rejects-documented-parse'
+        return 'unexplained-rejects-documented-parse', None
     if not o.ok and r[0] == 'ok':
-        return 'unexplained-accepts-undocumented-parse'
-    return 'unexplained-ast-differs'
+        return 'unexplained-accepts-undocumented-parse', None
+    return 'unexplained-ast-differs', None
 
 
 def fmt(o):
@@ -131,7 +143,7 @@ def fmt_real(r):
     return f'EXCEPTION {r[1]}: {r[2]}'
 
 
-def check_case(d, model, cfg, text, start, stats, failures, cfgname, keep=40):
+def check_case(d, model, cfg, text, start, stats, failures, cfgname, keep=40, suppress=None):
     """evaluate one case; update `stats`; append failure records"""
     stats['cases'] += 1
     try:
@@ -149,7 +161,7 @@ def check_case(d, model, cfg, text, start, stats, failures, cfgname, keep=40):
     if not agrees(o, r):
         pol = _admissible(d, text, start, cfg, r, info['open']) if r[0] != 'exc' else None
         if pol is None:
-            _fail(d, cfg, cfgname, text, start, o, r, stats, failures, keep, 'result')
+            _fail(d, cfg, cfgname, text, start, o, r, stats, failures, keep, 'result', suppress)
             return
         stats['agree_open'] += 1
         o = S.evaluate(d, text, start, policy=pol, **cfg)
@@ -167,12 +179,18 @@ def check_case(d, model, cfg, text, start, stats, failures, cfgname, keep=40):
         return
     r2 = real_parse(model, text, TOP)
     if r2[0] == 'exc' or (o2.ok != (r2[0] == 'ok')):
-        _fail(d, cfg, cfgname, text, TOP, o2, r2, stats, failures, keep, 'consumed')
+        _fail(d, cfg, cfgname, text, TOP, o2, r2, stats, failures, keep, 'consumed', suppress)
 
 
-def _fail(d, cfg, cfgname, text, start, o, r, stats, failures, keep, what):
+def _fail(d, cfg, cfgname, text, start, o, r, stats, failures, keep, what, suppress=None):
+    if suppress is not None and suppress(d, cfg, text, start, o, r):
+        stats['suppressed'] += 1
+        return
     stats['failed'] += 1
-    cls = classify(d, text, start, cfg, r)
+    hints = stats.setdefault('_hints', {})
+    cls, devs = classify(d, text, start, cfg, r, hints.get((d, cfgname)))
+    if devs:
+        hints[(d, cfgname)] = devs
     if what == 'consumed' and cls.startswith('unexplained'):
         cls = 'consumed-length-differs'
     n = stats['by_class'].get(cls, 0)
@@ -191,11 +209,13 @@ def _fail(d, cfg, cfgname, text, start, o, r, stats, failures, keep, what):
 
 def new_stats():
     return {'cases': 0, 'nontrivial': 0, 'skipped_unsupported': 0, 'skipped_unspecified': 0, 'agree_open': 0,
-            'agree_wildcard': 0, 'probes': 0, 'failed': 0, 'grammars': 0, 'build_errors': 0, 'by_class': {}}
+            'agree_wildcard': 0, 'probes': 0, 'failed': 0, 'suppressed': 0, 'grammars': 0, 'build_errors': 0, 'by_class': {}}
 
 
 def merge_stats(a, b):
     for k, v in b.items():
+        if k == '_hints':
+            continue
         if k == 'by_class':
             for c, n in v.items():
                 a['by_class'][c] = a['by_class'].get(c, 0) + n
@@ -210,7 +230,8 @@ def merge_stats(a, b):
 
 def work(job):
     """job = (descs, plan): plan = [(cfgname, inputs, starts)]; every description gets the `top_` rule"""
-    descs, plan = job
+    descs, plan = job[0], job[1]
+    suppress = job[2] if len(job) > 2 else None
     stats, failures, samples = new_stats(), [], []
     for d in descs:
         stats['grammars'] += 1
@@ -229,7 +250,7 @@ def work(job):
                                      'detail': f'building the model raised {type(e).__name__}: {str(e)[:200]}'})
                     continue
                 for text in ins:
-                    check_case(dt, model, cfg, text, start, stats, failures, name)
+                    check_case(dt, model, cfg, text, start, stats, failures, name, suppress=suppress)
                 if not samples and ins:
                     t = ins[len(ins) // 2]
                     try:
@@ -238,12 +259,14 @@ def work(job):
                                         'real': fmt_real(real_parse(model, t, start))})
                     except S.Unsupported:
                         pass
+    stats.pop('_hints', None)
     return stats, failures, samples
 
 
-def run_domain(name, descs, plan, *, function, domain, bound, exhaustive, budget=None, chunk=48, note=''):
+def run_domain(name, descs, plan, *, function, domain, bound, exhaustive, budget=None, chunk=48, note='',
+               prop=PROP, rule=RULE, suppress=None):
     descs = list(descs)
-    jobs = [(c, plan) for c in chunked(descs, max(1, (len(descs) + chunk - 1) // chunk))] if descs else []
+    jobs = [(c, plan, suppress) for c in chunked(descs, chunk)] if descs else []
     t0 = time.time()
     stats, failures, samples = new_stats(), [], []
     for st, fs, sm in pmap(work, jobs):
@@ -251,15 +274,16 @@ def run_domain(name, descs, plan, *, function, domain, bound, exhaustive, budget
         failures += fs
         samples += sm[:1]
     wall = time.time() - t0
-    items = bitem(PROP, name, function=function, domain=domain, bound=bound, cases=stats['cases'],
-                  distinct_nontrivial=stats['nontrivial'], rule=RULE, exhaustive=exhaustive, samples=samples,
+    items = bitem(prop, name, function=function, domain=domain, bound=bound, cases=stats['cases'],
+                  distinct_nontrivial=stats['nontrivial'], rule=rule, exhaustive=exhaustive, samples=samples,
                   failures=failures, note=note or f'bounded: {function} over {name}')
     for it in items:
         it.extra.update(grammars=stats['grammars'], probes=stats['probes'],
                         skipped_unspecified=stats['skipped_unspecified'],
                         skipped_unsupported=stats['skipped_unsupported'],
                         agree_under_open_aspect=stats['agree_open'], agree_with_wildcard=stats['agree_wildcard'],
-                        wall_s=round(wall, 1), failures_by_class=dict(stats['by_class']))
+                        wall_s=round(wall, 1), failures_by_class=dict(stats['by_class']),
+                        suppressed_not_in_scope=stats['suppressed'])
         if it.status == 'refuted':
             cls = it.id.rsplit('/', 1)[-1]
             it.extra['failing_cases'] = stats['by_class'].get(cls, it.extra.get('failing_cases', 0))
@@ -289,18 +313,20 @@ def single_rule(max_nodes, leaves='full', name='start', exact=False):
     return out
 
 
-def two_rule(start_nodes, callee_nodes, leaves='full', callee_leaves='full', names=('r', 'R'), exact=False):
+def two_rule(start_nodes, callee_nodes, leaves='full', callee_leaves='full', names=('r', 'R'), exact=False,
+             callees=None):
     out = []
+    if callees is None:
+        callees = [c for m in range(1, callee_nodes + 1) for c in G.exprs(m, 'expre', (), callee_leaves)]
     for callee in names:
         for n in range(start_nodes if exact else 1, start_nodes + 1):
             for body in G.exprs(n, 'expre', (callee,), leaves):
                 if not G._has_call(body, callee):
                     continue
-                for m in range(1, callee_nodes + 1):
-                    for cbody in G.exprs(m, 'expre', (), callee_leaves):
-                        d = (('start', body), (callee, cbody))
-                        if G.canonical(d):
-                            out.append(d)
+                for cbody in callees:
+                    d = (('start', body), (callee, cbody))
+                    if G.canonical(d):
+                        out.append(d)
     return out
 
 
@@ -313,6 +339,18 @@ def seq(*a):
 
 def ch(*a):
     return ('choice', tuple(a))
+
+
+# one callee per shape a rule value can take (str, None, list, closed list, dict, override of each kind) and
+# one that fails after a cut
+CALLEES = (
+    T('a'), ('pat', 'a+'), ('void',), ('opt', T('a')), ('closure', T('a')), seq(T('a'), T('b')),
+    ('named', 'x', T('a')), ('override', T('a')), ('overridelist', T('a')),
+    ('override', ('group', seq(T('a'), T('b')))), seq(T('a'), ('cut',), T('b')),
+)
+
+# all inputs over {a,b} up to length 3 and the blank in every position relative to one or two letters
+IN_MID = tuple(G.inputs('ab', 3)) + (' a', 'a ', 'a b', 'b a', ' ab', 'ab ', 'a a', 'b b')
 
 
 def curated():
@@ -363,7 +401,70 @@ def work_curated(job):
         model = S.to_model(dt, **cfg)
         for text in ins:
             check_case(dt, model, cfg, text, None, stats, failures, 'custom')
+    stats.pop('_hints', None)
     return stats, failures, samples
+
+
+def work_model_vs_text(job):
+    """to_model(d) and tatsu.compile(to_text(d)) must be the same grammar and parse identically"""
+    import tatsu
+    stats, failures, samples = new_stats(), [], []
+    for d, cfgname, ins in job:
+        cfg = CONFIGS[cfgname]
+        stats['grammars'] += 1
+        dt = with_top(d)
+        text = S.to_text(dt, **cfg)
+        try:
+            m1 = S.to_model(dt, **cfg)
+            m2 = tatsu.compile(text)
+        except Exception as e:  # noqa: BLE001
+            stats['failed'] += 1
+            stats['by_class']['compile-raises'] = stats['by_class'].get('compile-raises', 0) + 1
+            failures.append({'cls': 'compile-raises', 'witness': {'grammar': text, 'input': None, 'start': None},
+                             'detail': f'{type(e).__name__}: {str(e)[:200]}'})
+            continue
+        if m1.pretty() != m2.pretty():
+            stats['failed'] += 1
+            stats['by_class']['model-structure-differs'] = stats['by_class'].get('model-structure-differs', 0) + 1
+            failures.append({'cls': 'model-structure-differs', 'witness': {'grammar': text, 'input': None, 'start': None},
+                             'detail': f'to_model(d).pretty() = {m1.pretty()!r}; compile(to_text(d)).pretty() = '
+                                       f'{m2.pretty()!r}'})
+        for t in ins:
+            for start in (None, TOP):
+                stats['cases'] += 1
+                r1, r2 = real_parse(m1, t, start), real_parse(m2, t, start)
+                if r1[0] == 'ok':
+                    stats['nontrivial'] += 1
+                if (r1[:2] != r2[:2]) if r1[0] != 'fail' else (r2[0] != 'fail'):
+                    stats['failed'] += 1
+                    stats['by_class']['model-vs-text-differs'] = stats['by_class'].get('model-vs-text-differs', 0) + 1
+                    failures.append({'cls': 'model-vs-text-differs',
+                                     'witness': {'grammar': text, 'input': t, 'start': start or dt[0][0]},
+                                     'detail': f'programmatic model: {fmt_real(r1)}; compiled text: {fmt_real(r2)}'})
+    return stats, failures, samples
+
+
+def model_vs_text(sample, name='model-vs-compiled-text'):
+    t0 = time.time()
+    stats, failures = new_stats(), []
+    for st, fs, _sm in pmap(work_model_vs_text, chunked(sample, JOBS * 2)):
+        merge_stats(stats, st)
+        failures += fs
+    its = bitem(PROP, name, function='specpeg.to_model(d) == tatsu.compile(specpeg.to_text(d))',
+                domain=f'a deterministic sample of {len(sample)} descriptions from every sub-domain (every k-th) x the '
+                       '23 inputs IN_MID x start in {first rule, top_}: same pretty() text and same parse result',
+                bound='sample', cases=stats['cases'], distinct_nontrivial=stats['nontrivial'],
+                rule='(grammar, input, start) triples the programmatic model parses successfully',
+                exhaustive=False, samples=[], failures=failures)
+    for it in its:
+        it.extra.update(grammars=stats['grammars'], failures_by_class=dict(stats['by_class']))
+    return its, stats, time.time() - t0
+
+
+def every(xs, k, cfgname='B', ins=None):
+    xs = list(xs)
+    step = max(1, len(xs) // k)
+    return [(d, cfgname, ins or IN_MID) for d in xs[::step]][:k]
 
 
 # --------------------------------------------------------------------------------------------------
@@ -448,33 +549,38 @@ def run(tier='quick', seed=0, info=None):
     in4, in3 = G.inputs('ab ', 4), G.inputs('ab ', 3)
     in5 = G.inputs('ab ', 5)
 
+    sample = []
+
     def go(name, descs, plan, **kw):
+        descs = list(descs)
+        if not name.startswith('random'):
+            sample.extend(every(descs, 30 if tier == 'quick' else 150))
         its, st, wall = run_domain(name, descs, plan, function=FUNCTION, **kw)
         items.extend(its)
         summary.append((name, st, wall))
 
     if tier == 'quick':
         go('single-rule-le3', single_rule(3),
-           [('B', in4, (None,)), ('A', adjacent(in4), (None,)), ('C', spaced(in3), (None,))],
+           [('B', in4, (None,)), ('A', adjacent(in3), (None,)), ('C', spaced(in3), (None,))],
            domain='every grammar `start = e` with e of <= 3 nodes over tokens {a,b}, pattern /a+/, constant, '
                   'void, fail, EOF, any-char, empty closure, cut and every operator (canonical up to renaming '
                   'x<->y and, without the pattern, a<->b) x configurations B (nameguard off; all inputs over '
-                  "{a,b,' '} of length <= 4), A (defaults; the inputs where two letters touch), C (no whitespace "
-                  'skipping; the inputs of length <= 3 containing a blank)',
+                  "{a,b,' '} of length <= 4), A (defaults; the inputs of length <= 3 where two letters touch), C "
+                  '(no whitespace skipping; the inputs of length <= 3 containing a blank)',
            bound='<= 3 nodes, input length <= 4', exhaustive=True)
-        go('single-rule-4-core', single_rule(4, 'core', exact=True), [('B', in3, (None,))],
+        go('single-rule-4-core', single_rule(4, 'core', exact=True), [('B', IN_MID, (None,))],
            domain="every grammar `start = e` with e of exactly 4 nodes over the core leaves {'a','b',/a+/,(),~} "
-                  "and every operator x configuration B x all inputs over {a,b,' '} of length <= 3",
-           bound='4 nodes, input length <= 3', exhaustive=True)
-        go('two-rule', two_rule(2, 2), [('B', in3, (None,))],
+                  'and every operator x configuration B x the 23 inputs IN_MID (all over {a,b} of length <= 3, '
+                  'and a blank before / after / between one or two letters)',
+           bound='4 nodes, 23 inputs of length <= 3', exhaustive=True)
+        go('two-rule', two_rule(2, 2), [('B', IN_MID, (None,))],
            domain='`start = e` with e of <= 2 nodes calling a second rule named r (skips whitespace at entry) or '
-                  'R (does not), whose body has <= 2 nodes (full leaf alphabet) x configuration B x all inputs '
-                  "over {a,b,' '} of length <= 3",
-           bound='<= 2 + 2 nodes, input length <= 3', exhaustive=True)
-        go('two-rule-3-core', two_rule(3, 2, 'core', 'core', exact=True), [('B', in3, (None,))],
-           domain='`start = e` with e of exactly 3 nodes (core leaves) calling r / R whose body has <= 2 nodes '
-                  "(core leaves) x configuration B x all inputs over {a,b,' '} of length <= 3",
-           bound='3 + 2 nodes, input length <= 3', exhaustive=True)
+                  'R (does not), whose body has <= 2 nodes (full leaf alphabet) x configuration B x IN_MID',
+           bound='<= 2 + 2 nodes, 23 inputs of length <= 3', exhaustive=True)
+        go('two-rule-3-core', two_rule(3, 0, 'core', exact=True, callees=CALLEES), [('B', IN_MID, (None,))],
+           domain='`start = e` with e of exactly 3 nodes (core leaves) calling r / R whose body is one of the 11 '
+                  'CALLEES (one per value shape) x configuration B x IN_MID',
+           bound='3 nodes + curated callee, 23 inputs of length <= 3', exhaustive=True)
         go('token-rule-start', single_rule(3, 'core', name='R'), [('B', in3, (None,)), ('A', adjacent(in3), (None,))],
            domain='every grammar `R = e` (upper-case start rule: no whitespace skipped at entry) with e of <= 3 '
                   "nodes over the core leaves x configurations B, A x all inputs over {a,b,' '} of length <= 3",
@@ -516,6 +622,12 @@ def run(tier='quick', seed=0, info=None):
     items.extend(its)
     summary.append(('curated-lexical', stats, time.time() - t0))
 
+    sample += every([d for _n, d in G.CUT_GRAMMARS], 30 if tier == 'quick' else 200, ins=G.inputs('abc', 4))
+    sample += [(d, 'A', IN_MID) for d, _c, _i in sample[::5]]
+    its, st, wall = model_vs_text(sample)
+    items.extend(its)
+    summary.append(('model-vs-compiled-text', st, wall))
+
     if tier != 'quick':
         # random extension beyond the exhaustive bound, seeded; in rounds until the budget is used
         rnd = 0
@@ -540,7 +652,7 @@ def print_summary(items, summary, wall):
     for name, st, w in summary:
         print(f'{name:22} grammars={st["grammars"]:6} cases={st["cases"]:8} nontrivial={st["nontrivial"]:8} '
               f'probes={st["probes"]:7} open={st["agree_open"]:6} wildcard={st["agree_wildcard"]:6} '
-              f'skipped={st["skipped_unspecified"] + st["skipped_unsupported"]:6} failed={st["failed"]:6} '
+              f'skipped={st["skipped_unspecified"] + st["skipped_unsupported"]:6} failed={st["failed"]:6} suppressed={st["suppressed"]:5} '
               f'{w:6.1f}s')
         for c, n in sorted(st['by_class'].items(), key=lambda kv: -kv[1]):
             print(f'    {n:7}  {c}')
